@@ -14,7 +14,7 @@ RULE = ("A program is built from 3..6 units over a small pool of generated input
         "heap traffic) in between; validity by construction. The whole program runs in one ASan+UBSan+LSan probe process. "
         "Oracle: every unit is also executed alone in a fresh process; return codes, dumped names/rows, written files (MSF "
         "date/file name normalised) and scores must be equal; LeakSanitizer must be silent when the program ends after the "
-        "final free. Non-trivial = >= 3 units, >= 2 distinct inputs or configurations and >= 1 interleaving (a step of one "
+        "final free, and on the un-sanitised build an interposed malloc/free accounting must show that, after a warm-up unit, the program leaves no more than 2 KiB / 8 blocks allocated beyond what was allocated before it (memory parked behind static pointers is invisible to LeakSanitizer). Non-trivial = >= 3 units, >= 2 distinct inputs or configurations and >= 1 interleaving (a step of one "
         "unit between two steps of another); distinct by hash of the program.")
 ASSUMPTIONS = ["libgomp's thread pool is reachable at exit and therefore not reported by LeakSanitizer",
                "inputs are valid for the calls made on them except in the deliberately rejected unit"]
@@ -207,6 +207,24 @@ def check(case):
             return engine.violation({"what": "unit %d (%s) gives a different result inside the program than alone in a fresh process" % (ui, u["kind"]),
                                      "step": keys[i][1][:20], "alone": str(alone[i])[:400], "in_program": str(in_prog[ui][i])[:400],
                                      "program": [p.split()[0] for p in prog]}, classes=cl)
+    # ---- nothing the library allocated may remain allocated: live-heap accounting on the un-sanitised build
+    # (LeakSanitizer cannot see memory parked behind a static pointer).  A warm-up unit lets the OpenMP runtime and
+    # stdio allocate their one-time structures first.
+    tiny = wd.write(b">w1\nACGTACGTAC\n>w2\nACGTTCGTAC\n>w3\nACGACGTAC\n", ".fa")
+    warm = ["read 15 1 %s" % tiny, "run 15 8 5 -1 -1 -1"] + ["write 15 %s %s" % (f, wd.path("." + f)) for f in ("fasta", "msf", "clu")] + \
+           ["free 15", "read 15 1 %s" % tiny, "read 14 1 %s" % tiny, "run 15 2 5 -1 -1 -1", "run 14 2 5 -1 -1 -1", "compare 15 14", "free 15", "free 14"]
+    sp = wd.write(runner.seqset_bytes(["ACGTAC", "ACGAAC"]), ".seqs")
+    warm.append("arr %s 8 5 -1 -1 -1" % sp)
+    hp = runner.run_probe(warm + ["heapmark"] + prog + ["heapmark"], variant="plain")
+    if hp.ended.bad or hp.steps is None or len(hp.steps) != len(warm) + len(prog) + 2:
+        return engine.violation({"what": "process failure in the heap-accounting run", **hp.ended.brief()}, classes=cl, kind="crash")
+    h0, h1 = hp.steps[len(warm)], hp.steps[-1]
+    if h0.get("rc") == 0 and h1.get("rc") == 0:
+        grown = h1["live_bytes"] - h0["live_bytes"]
+        cl.append("heap_accounted")
+        if grown > 2048 or h1["live_blocks"] - h0["live_blocks"] > 8:
+            return engine.violation({"what": "after every object was freed %d more bytes in %d more blocks are still allocated than before the program" %
+                                     (grown, h1["live_blocks"] - h0["live_blocks"]), "units": [u["kind"] for u in units]}, classes=cl)
     distinct = len(set((u["inp"], u["kind"], str(sorted(u["cfg"].items()))) for u in units))
     nt = len(units) >= 3 and distinct >= 2 and interleaved
     return engine.ok(nt, cl, {"program": [p.split()[0] + ":" + str(o) for p, o in zip(prog, owner)][:40],
